@@ -198,6 +198,16 @@ fn fingerprint(pool: &Pool<Mgr>, tasks: &[STask]) -> u64 {
 fn canon(pool: &Pool<Mgr>, tasks: &[STask], closes: usize) -> u64 {
     let mut h = std::collections::hash_map::DefaultHasher::new();
     pool.verif_snapshot().hash(&mut h);
+    // where each idle object really sits in the pool's queue, relative to the
+    // reference queue (identity through the creation instant): a pool whose
+    // queue order differs from the reference is a different state
+    let actual = pool.verif_idle_order().unwrap_or_default();
+    w(|w| {
+        for inst in &actual {
+            let pos = w.ref_idle.iter().position(|id| w.objs[*id].created == Some(*inst));
+            pos.hash(&mut h);
+        }
+    });
     w(|w| {
         let obj = |id: usize, h: &mut std::collections::hash_map::DefaultHasher| {
             let o = &w.objs[id];
